@@ -199,16 +199,30 @@ def run(ctx):
                   "advance_by keeps counting after next() yielded the invalid suffix (Some(Err(_))): advance_by(n) is no longer n successful next_flag() calls (back-edge guards %s)" % [guard_strs(ab, p)[-2:] for p in back])
     # ---- R13.9 is_number: after the scan the only rejection is a dangling exponent
     isn = fx.body("clap_lex::is_number")
-    post = [d for d in isn.def_sites(0) if any(re.match(r"^V0:next\(into_iter\(enumerate\(", g) for g in guard_strs(isn, d[0]))]
+    # after the scan: the loop's None edge, or (closure form `bytes.iter().enumerate().all(|(i, c)| ..)`) the true edge of all(..)
+    post = [d for d in isn.def_sites(0) if any(re.match(r"^V0:next\(into_iter\(enumerate\(|^T:all\(enumerate\(", g) for g in guard_strs(isn, d[0]))]
     res.floor("R13.9", "post-scan results of is_number", len(post), 2)
+    # which variant of `position_of_e` a block sits on, read from the discriminant switches on that local itself (when the scan is a
+    # closure the local is updated through a captured &mut and its canonical expression is just its initial value)
+    pe_edges = {}
+    for l_ in isn.locals_named("position_of_e"):
+        for (sb, pl_, ty_, tg, ow) in isn.discr_switches(l_):
+            for v_, t_ in list(tg.items()) + [(None, ow)]:
+                vv = v_ if v_ is not None else (1 - list(tg)[0] if len(tg) == 1 and list(tg)[0] in (0, 1) else None)
+                if vv is not None:
+                    for blk in isn.reachable(t_, without_blocks=[x for x in list(tg.values()) + [ow] if x != t_]):
+                        if isn.edge_dominates((sb, t_), blk):
+                            pe_edges.setdefault(blk, set()).add(vv)
     for d in post:
-        gl = guard_strs(isn, d[0])
+        gl = list(guard_strs(isn, d[0]))
+        for vv in pe_edges.get(d[0], ()):
+            gl.append("V%d:position_of_e" % vv)
         rv = d[3]
         if "V0:position_of_e" in gl:
             res.check(isinstance(rv, dict) and rv["k"] == "use" and op_int(rv["op"]) == 1, "R13.9", "no-exponent-accepted", "%s bb%d" % (isn.where(), d[0]), "without an exponent every scanned text is a number",
                       "is_number rejects texts that passed the scan and have no exponent (e.g. `1.`): `-1.` is a value in `--opt=-1.` but an unknown flag in `--opt -1.`")
         elif "V1:position_of_e" in gl:
-            okd = isinstance(rv, dict) and rv["k"] == "binop" and rv["op"] == "Ne" and {expr(isn, rv["a"]), expr(isn, rv["b"])} == {"position_of_e#Some.0", "Sub(len(arg),1)"}
+            okd = isinstance(rv, dict) and rv["k"] == "binop" and rv["op"] == "Ne" and {re.sub(r"^Option::None\(\)#Some\.0$", "position_of_e#Some.0", expr(isn, rv["a"])), re.sub(r"^Option::None\(\)#Some\.0$", "position_of_e#Some.0", expr(isn, rv["b"]))} == {"position_of_e#Some.0", "Sub(len(arg),1)"}
             res.check(okd, "R13.9", "dangling-exponent", "%s bb%d" % (isn.where(), d[0]), "with an exponent: rejected only if `e` is the last byte", "is_number's exponent check is no longer `position != len - 1`")
         else:
             res.violation("R13.9", "post-scan-unrecognised", "%s bb%d" % (isn.where(), d[0]), "is_number decides after the scan under %s" % gl[-2:])
